@@ -126,7 +126,7 @@ func clone(p *gabi.ProofD) *gabi.ProofD {
 
 func main() {
 	if len(os.Args) < 2 {
-		hx.Fatal("usage: nr replay|d10 ...")
+		hx.Fatal("usage: nr replay|d10|lifecycle ...")
 	}
 	cmd := os.Args[1]
 	os.Args = append(os.Args[:1], os.Args[2:]...)
@@ -158,6 +158,8 @@ func main() {
 		})
 	case "d10":
 		d10(kps[0], rng, res)
+	case "lifecycle":
+		lifecycle(a, kps, rng, res)
 	default:
 		hx.Fatal("unknown subcommand")
 	}
